@@ -99,3 +99,31 @@ Example C05_nonvacuous :
   resolve p 2 M1 = FSome (0, None, TheModule).
 Proof. vm_compute. repeat split. Qed.
 Print Assumptions C05_nonvacuous.
+
+(* unnamed / abstract INTERFACE blocks (C05/Blocks.v): whatever check_scope returns to a search from outside the module
+   (filter_public) is accessible by the MODULE's default accessibility, wherever it is declared -- directly or as an
+   interface body; and it is the first such declaration in source order *)
+From FV Require Import C05.Blocks.
+Theorem interface_bodies_follow_module_accessibility : forall dv cs name e,
+  check_scope_b dv cs name true = Some e -> In e (members_of cs) /\ e_name e = name /\ priv dv e = false.
+Proof. intros dv cs name e H. destruct (check_scope_b_sound dv name true cs e H) as (H1 & H2 & H3). auto. Qed.
+Print Assumptions interface_bodies_follow_module_accessibility.
+
+Theorem interface_bodies_searched_in_source_order : forall dv cs name fp,
+  check_scope_b dv cs name fp = find (hit dv name fp) (members_of cs).
+Proof. intros. apply check_scope_b_first. Qed.
+Print Assumptions interface_bodies_searched_in_source_order.
+
+(* the pinned tree asked the block for its own default accessibility: a module with a PRIVATE statement leaked its interface bodies *)
+Theorem C05_refuted_private_interface_body : exists dv cs name e,
+  check_scope_pinned dv cs name true = Some e /\ priv dv e = true.
+Proof. exists (-1)%Z, [CBlock 0%Z [EN X 0 3]], X, (EN X 0 3). vm_compute. split; reflexivity. Qed.
+Print Assumptions C05_refuted_private_interface_body.
+
+Example C05_blocks_nonvacuous :
+  check_scope_b (-1) [CBlock 0 [EN X 0 3]; CEnt (EN A 1 4); CBlock 0 [EN R 1 5]] X true = None /\
+  check_scope_b (-1) [CBlock 0 [EN X 0 3]; CEnt (EN A 1 4); CBlock 0 [EN R 1 5]] R true = Some (EN R 1 5) /\
+  check_scope_b (-1) [CBlock 0 [EN X 0 3]; CEnt (EN A 1 4)] X false = Some (EN X 0 3) /\
+  check_scope_b 0 [CBlock 0 [EN X 0 3]; CEnt (EN X 0 9)] X true = Some (EN X 0 3).
+Proof. vm_compute. repeat split. Qed.
+Print Assumptions C05_blocks_nonvacuous.
